@@ -67,6 +67,8 @@ def analyse(ctx, c, m, i, stats, report=True):
     if m is None or i is None:
         return ({"index": -1, "model": "<no output>" if m is None else "ok", "impl": "<no output>" if i is None else "ok", "prefix": []}, None, False)
     nu = fc_util.split_model_uaf(m)
+    stats["model_lost_markers"] = stats.get("model_lost_markers", 0) + m.get("lost", 0)
+    stats["model_uaf_markers"] = stats.get("model_uaf_markers", 0) + nu
     d = conc_check.compare(m, i)
     mon = fc_util.monitor_extra(i["extra"])
     fail = None
@@ -81,6 +83,8 @@ def analyse(ctx, c, m, i, stats, report=True):
         if e:
             fail = "flat-combining trace predicate violated on the real code: " + e[0]
             stats["detail"] = e[1]
+    if fail is None and m.get("lost", 0) > 0 and m["end"] == "finished":
+        fail = "the model releases a publication record whose request was not answered (the containers' compiled-out assert( pRec->is_done()) would fail) and the real code follows the same steps"
     known = (fail == "uaf" and d is None and nu > 0)
     if fail == "uaf":
         fail = WHAT_UAF if known else WHAT_UAF_OTHER
@@ -207,6 +211,7 @@ def run(ctx):
         "distinct_event_logs": len(shapes), "impl_steps_compared": steps, "diverged": diverged, "corpus_cases": ncorpus,
         "traces_validated_against_impl": len(cases) - diverged, "feature_histogram": feat_hist, "schedule_kinds": kind_hist,
         "cases_showing_known_free_while_linked": known_uaf, "asan": asan,
+        "model_lost_markers": stats.get("model_lost_markers", 0), "model_uaf_markers": stats.get("model_uaf_markers", 0),
         "samples": [cases[ncorpus]] if len(cases) > ncorpus else cases[:1],
         "modelled": "cds::algo::flat_combining::kernel: acquire_record, publish, republish, combine, batch_combine, try_combining, wait_for_combining, combining, combining_pass, batch_combining, iterator/skip_inactive, operation_done, compact_list, tls_cleanup, release_record",
     })
